@@ -285,9 +285,27 @@ Definition out_one (value : bytes) : bytes :=
     end
   end.
 
+Definition opt_dec (o : option nat) : bytes :=
+  match o with
+  | Some n => dec_nat n
+  | None => [45;49]%N                                                        (* -1 *)
+  end.
+
 (* kind 1: a sequence of records through one transform instance: the transform keeps no state, so
-   the outputs are those of the single values, "seq:" o1 ";" o2 ... *)
+   the outputs are those of the single values, "seq:" o1 ";" o2 ...
+   kind 2: sargs = [src], zargs = [atIndex, limitStart]: redactFindEmailBoundary, "b:<start>,<end>" | panic
+   kind 3: sargs = [s]: redactEmailCheckNumber, "n:0" | "n:1" | panic *)
 Definition run_case_C14 (c : case) : bytes :=
   if (c_kind c =? 1)%N
   then [115;101;113]%N ++ colon :: join 59%N (map out_one (c_sargs c))
+  else if (c_kind c =? 2)%N then
+    match find_boundary (sarg c 0) (Z.to_nat (zarg c 0)) (Z.to_nat (zarg c 1)) with
+    | Ok (s, e) => [98]%N ++ colon :: opt_dec s ++ comma :: opt_dec e
+    | _ => str_panic
+    end
+  else if (c_kind c =? 3)%N then
+    match check_number (sarg c 0) with
+    | Ok b => [110]%N ++ colon :: bool_digit b
+    | _ => str_panic
+    end
   else out_one (sarg c 0).
